@@ -268,6 +268,10 @@ func parseManifestStream(s string) (m ManifestStream) {
 			return
 		}
 		m.blockOffsets[i] = streamoffset
+		if streamoffset+uint64(bl.Size) < streamoffset {
+			m.Err = fmt.Errorf("Stream length overflows at block locator %s", b)
+			return
+		}
 		streamoffset += uint64(bl.Size)
 	}
 	m.blockOffsets[len(m.Blocks)] = streamoffset
